@@ -35,7 +35,9 @@ RULE = ('the real queue -> deque -> extract_epochs loop. All seven queue classes
         'and stimuli appended afterwards; pause exactly at / below the acquisition position, paused silence acquired and resume exactly '
         'at / after it, a second earlier pause while paused, three pause/resume pairs between two sends; acquisition sample and queue '
         'clock beyond 2^24 and 2^25. (5) long logs: 300-600 trials of 1-3 samples (delay 0-2) generated ahead of the acquisition in one or '
-        'a few requests, pause at an early time (several hundred logged trials cancelled at once), resume, everything acquired; five queue classes.')
+        'a few requests, pause at an early time (several hundred logged trials cancelled at once), resume, everything acquired; five queue classes. (6) Cos2 stimuli with an envelope start_time: start_time and duration both off the grid (fraction pairs whose sum carries '
+        'up, carries down, or does not), waveform length and declared duration taken from the real factory, one-shot reference, generation '
+        'chunkings one / 1-sample / ragged (requests starting inside the falling ramp) at all six rates; plus 0.1 ms + 5 ms tone pips at 195312.5 and 97656.25 Hz.')
 TRUSTED = ['harness/C06.py (the playback device: writes each pop_buffer result at the queue clock, truncates at round(t*fs) on pause; '
            'computes the sample numbers handed to the model with the float expressions of the code: round((t-T0)*fs) for pause/resume, '
            'round(delay*fs), round(duration*fs), round((epoch_size+poststim+prestim)*fs), round(buffer_size*fs)); harness/queuecore.py',
@@ -64,7 +66,14 @@ def _fs(case):
 
 
 def _dur(st, fs):
-    return (st['len'] + st.get('off', 0.0)) / fs
+    # st['len'] is the length of the whole waveform; a cos2 stimulus with st['start'] = [samples, fraction] spends the first
+    # `samples` of it before the envelope starts (Cos2EnvelopeFactory(..., start_time=(samples+fraction)/fs))
+    a = st['start'][0] if st.get('start') else 0
+    return (st['len'] - a + st.get('off', 0.0)) / fs
+
+
+def _start(st, fs):
+    return (st['start'][0] + st['start'][1]) / fs if st.get('start') else 0
 
 
 def _delay(st, fs):
@@ -89,14 +98,23 @@ def _source(case, st, k):
     if st['kind'] == 'gen':
         return stim.FixedWaveform(fs, _warr(case, k, n))
     tone = stim.ToneFactory(fs, fs / 7.0, 1.0 + k)
+    if st.get('start'):
+        return stim.Cos2EnvelopeFactory(fs, _dur(st, fs), ((n - st['start'][0]) // 4) / fs, tone, start_time=_start(st, fs))
     return stim.Cos2EnvelopeFactory(fs, _dur(st, fs), (n // 4) / fs, tone)
+
+
+def _slen(case, st, k=0):
+    """number of samples of the stimulus, as the real object reports it"""
+    if st['kind'] != 'cos2':
+        return st['len']
+    return int(_source(case, st, k).n_samples())
 
 
 def _wave(case, st, k):
     src = _source(case, st, k)
     if isinstance(src, np.ndarray):
         return src
-    return np.asarray(src.next(st['len']), dtype=float)
+    return np.asarray(src.next(int(src.n_samples())), dtype=float)      # the reference: one-shot generation, fresh factory
 
 
 def _T0(case):
@@ -180,7 +198,10 @@ def _times(case):
     fs = case['fs']
     if case['esize'] is None:
         st = case['stims'][0]
-        esize = _dur(st, fs) if (st['kind'] == 'cos2' or st.get('explicit')) else st['len'] / fs
+        if st['kind'] == 'cos2':
+            esize = _source(case, st, 0).get_duration()
+        else:
+            esize = _dur(st, fs) if st.get('explicit') else st['len'] / fs
     else:
         esize = (case['esize'][0] + case['esize'][1]) / fs
     post = 0 if case.get('post_omit') else (case['post'][0] + case['post'][1]) / fs
@@ -362,7 +383,7 @@ def expr(case, res):
     fs = case['fs']
     es = []
     for st in case['stims']:
-        ln = st['len'] if st['kind'] != 'cos2' else int(round(_dur(st, fs) * fs))
+        ln = _slen(case, st)
         if st.get('nodelay'):
             d, cyc = [0], True
         elif 'delays' in st:
@@ -807,6 +828,7 @@ def cases(tier, rng):
 
     # (4) coverage audit: options of the queue, of the extractor and of the acquisition driver
     yield from _audit_cases(quick, rng)
+    yield from _start_cases(quick, rng)
     # (5) long logs: hundreds of very short trials generated far ahead of the acquisition, then an early pause
     for pol in (['fifo', 'inter_keep', 'inter_nokeep', 'blocked_random', 'grouped'] if quick else qc.POLICIES + qc.POLICIES):
         fs = rng.choice(FS)
@@ -832,6 +854,47 @@ def cases(tier, rng):
         for k in _chunks(left, rng.choice(['one', 'few']), rng):
             steps.append(['acq', k])
         yield dict(c, steps=steps)
+
+
+def _start_cases(quick, rng):
+    """(6) Cos2 stimuli whose envelope starts late, start_time and duration both off the grid (fractions that carry and that
+    do not), every generation chunking so that requests begin inside the falling ramp; no pause (the declared duration
+    start_time + duration may round to one sample more or less than the waveform has)"""
+    pairs = [(0.45, 0.3), (0.3, 0.45), (-0.4, -0.27), (-0.27, -0.4), (0.499, 0.12), (0.3, -0.4), (0.12, 0.12), (0.0, 0.45),
+             (0.45, 0.0), (-0.08, -0.45)]
+    for fs in FS:
+        for gm in ('one', 'ones', 'ragged'):
+            for rep_ in range(2 if quick else 8):
+                nst = rng.randint(1, 2)
+                st = []
+                for _ in range(nst):
+                    a = rng.randint(0, 6)
+                    fr, off = rng.choice(pairs)
+                    if a == 0 and fr < 0:
+                        fr, off = -fr, -off
+                    st.append({'kind': 'cos2', 'len': a + rng.randint(4, 9), 'start': [a, fr], 'off': off, 'explicit': False,
+                               'trials': 2, 'delay': 0, 'doff': rng.choice(OFFS)})
+                c = _fix_n(_base(rng, rng.choice(['fifo', 'inter_nokeep', 'grouped']), fs, st, rng.randint(0, 3), quick))
+                c['D'] = 0
+                n = _times(c)[2]
+                _fit_delays(st, n, rng)
+                total = _total(st, n)
+                steps = [['pop', k] for k in _chunks(total, gm, rng)]
+                for k in _chunks(c['j'] + total, rng.choice(['ragged', 'one']), rng):
+                    steps.append(['acq', k])
+                yield dict(c, steps=steps)
+    # realistic size: 0.1 ms start, 5 ms tone pip (19.53 + 976.56 samples at 195312.5 Hz: 20 + 977, the sum rounds to 996)
+    for fs in [195312.5, 97656.25] + ([] if quick else [48828.125, 44.1e3]):
+        for gm in ('ragged', 'few'):
+            a, fr = int(round(1e-4 * fs)), 1e-4 * fs - int(round(1e-4 * fs))
+            d, off = int(round(5e-3 * fs)), 5e-3 * fs - int(round(5e-3 * fs))
+            st = [{'kind': 'cos2', 'len': a + d, 'start': [a, fr], 'off': off, 'explicit': False, 'trials': 2, 'delay': 3,
+                   'doff': 0.3}]
+            c = {'pol': 'fifo', 'gs': 1, 'seed': 0, 'fs': fs, 'D': 0, 'j': 3, 'B': 0, 'stims': st, 'esize': [a + d, 0.0],
+                 'post': [2, 0.3]}
+            total = 2 * (a + d + 3) + 10
+            steps = [['pop', k] for k in _chunks(total, gm, rng)] + [['acq', k] for k in _chunks(3 + total, 'few', rng)]
+            yield dict(c, steps=steps)
 
 
 def _fifo_timeline(case):
